@@ -29,6 +29,23 @@ pub fn Wrap(children: Children) -> impl IntoView {
     view! { <section class="w">{children()}</section> }
 }
 
+/// `<Pass>children</Pass>` returns its children as they are: attributes written on the component
+/// (`attr:x`, `class:x`) are spread onto every root element of the children
+#[component]
+pub fn Pass(children: Children) -> impl IntoView {
+    children()
+}
+
+/// a slot: `<Cond><Then slot>children</Then></Cond>` renders `<div class="cond">children</div>`
+#[slot]
+pub struct Then {
+    children: ChildrenFn,
+}
+#[component]
+pub fn Cond(then: Then) -> impl IntoView {
+    view! { <div class="cond">{(then.children)()}</div> }
+}
+
 /// `<Label text="…"/>` renders `<label>text</label>`
 #[component]
 pub fn Label(#[prop(into)] text: String) -> impl IntoView {
